@@ -793,3 +793,181 @@ Proof.
   intros b v vals Hs H6 Hd Hf. destruct (dispatch_of_selects b v Hs H6 Hd) as (dt & ct & Ha & Hr).
   unfold decode_bits, decode_bits_as. rewrite Ha, Hr. cbn [bind]. rewrite Hf. reflexivity.
 Qed.
+
+(* ------------------------------------------------------------------------------------------------ *)
+(* 6. C01                                                                                              *)
+
+Definition pad_field (b : list bool) (s : sfield) : bool :=
+  match s_kind s with
+  | KT => forallb negb (sub b (s_off s + (s_width s / 6) * 6) (s_width s mod 6))
+  | _ => true
+  end.
+
+Lemma text_pad_zero_fields : forall v b, text_pad_zero v b = forallb (pad_field b) (spec_layout v).
+Proof. reflexivity. Qed.
+
+Lemma pad_field_pad_ok : forall b s, (s_off s + s_width s <= length b)%nat -> pad_field b s = true ->
+  pad_ok (s_kind s) (sub b (s_off s) (s_width s)) = true.
+Proof.
+  intros b s Hl H. unfold pad_field in H. destruct (s_kind s); try reflexivity.
+  cbn [pad_ok]. unfold tail_zero. rewrite sub_length by lia. unfold sub in *.
+  rewrite skipn_firstn_comm, skipn_skipn_add.
+  replace (s_width s - s_width s / 6 * 6)%nat with (s_width s mod 6)%nat by lia.
+  exact H.
+Qed.
+
+Lemma total_width_cons : forall s sr, total_width (s :: sr) = (s_width s + total_width sr)%nat.
+Proof. reflexivity. Qed.
+
+Lemma dec1_inside : forall f b off, (0 < f_width f)%nat -> (off + f_width f <= length b)%nat ->
+  dec1 f b off = bind (decode_field f (sub b off (f_width f))) (fun kw => apply_opt_conv (f_attrs_conv f) kw).
+Proof.
+  intros f b off Hp Hl. unfold dec1, field_at.
+  replace (length b <=? off)%nat with false by (symmetry; apply Nat.leb_gt; lia).
+  rewrite slice_sub. replace (Nat.min (length b) (off + f_width f) - off)%nat with (f_width f) by lia. reflexivity.
+Qed.
+
+Lemma dec_all_match : forall fs sfs off b,
+  field_errors fs sfs off = [] -> (off + total_width sfs <= length b)%nat -> forallb (pad_field b) sfs = true ->
+  exists vals, mseq (dec_all fs b off) = Ok vals /\
+    Forall2 val_matches vals (map (fun s => spec_value (s_kind s) (sub b (s_off s) (s_width s))) sfs).
+Proof.
+  induction fs as [|f fr IH]; intros [|s sr] off b He Hl Hp; try discriminate.
+  - exists []. split; [reflexivity|constructor].
+  - apply field_errors_cons in He as (_ & Hw & Ho & Hpos & Hs & He).
+    rewrite total_width_cons in Hl. cbn [forallb] in Hp. apply andb_true_iff in Hp as [Hp1 Hp].
+    destruct (IH sr (off + f_width f)%nat b He ltac:(lia) Hp) as (vals & Hm & HF).
+    destruct (kind_sem (s_kind s) f (sub b off (f_width f)) Hs (sub_length_le _ _ _)) as (kw & v & Hd & Ha & Hv).
+    exists (v :: vals). split.
+    + cbn [dec_all]. apply mseq_cons_ok; [|exact Hm]. rewrite dec1_inside by lia. rewrite Hd. exact Ha.
+    + cbn [map]. constructor; [|exact HF]. subst off. rewrite <- Hw. apply Hv.
+      rewrite Hw. apply pad_field_pad_ok; [lia|exact Hp1].
+Qed.
+
+Lemma nominal_covers_disc : forall v, (6 <= nominal v)%nat /\ (disc_end v <= nominal v)%nat.
+Proof. destruct v; split; apply Nat.leb_le; vm_compute; reflexivity. Qed.
+
+(* C01: for every layout variant and every bit string of its nominal length that selects the variant by its own
+   discriminator bits (text padding zero), the model of pyais.decode returns the class of the variant and, field by
+   field, a value that satisfies the value the ITU/gpsd layout assigns; the field names are those of the layout. *)
+Theorem C01_decode : forall v bits,
+  length bits = nominal v -> spec_variant bits = Some v -> text_pad_zero v bits = true ->
+  exists vals,
+    decode_bits bits = Ok (cls_of v, vals) /\
+    Forall2 val_matches vals (map snd (spec_decode v bits)) /\
+    map f_name (fields_of (cls_of v)) = map fst (spec_decode v bits) /\
+    class_name (cls_of v) = variant_class v.
+Proof.
+  intros v bits Hlen Hv Hpad.
+  destruct (layout_ok_inv _ _ (tables_match_spec v)) as (Hname & Htot & Herr).
+  destruct (nominal_covers_disc v) as [H6 Hd].
+  rewrite text_pad_zero_fields in Hpad.
+  destruct (dec_all_match _ _ 0%nat bits Herr ltac:(lia) Hpad) as (vals & Hm & HF).
+  exists vals. repeat split.
+  - apply decode_bits_of_selects; try lia.
+    + apply spec_variant_selects; [exact Hv|lia].
+    + apply from_bitarray_of_dec_all. exact Hm.
+  - unfold spec_decode. rewrite map_map. exact HF.
+  - unfold spec_decode. rewrite map_map. exact (field_errors_names _ _ _ Herr).
+  - exact Hname.
+Qed.
+
+(* ------------------------------------------------------------------------------------------------ *)
+(* 7. C11                                                                                              *)
+
+Lemma kind_none : forall k f, sig_ok k f = true -> apply_opt_conv (f_attrs_conv f) VNone = Ok VNone.
+Proof.
+  intros k f Hs. rewrite apply_resolve. destruct k; use_sig Hs;
+    try (match goal with H : resolve (f_attrs_conv f) = _ |- _ => rewrite H end; reflexivity).
+  destruct (enum_conv (resolve (f_to f)) (resolve (f_attrs_conv f))) eqn:Ec; [|discriminate].
+  unfold enum_conv in Ec.
+  destruct (resolve (f_to f)); destruct (resolve (f_attrs_conv f)); try discriminate; reflexivity.
+Qed.
+
+Lemma dec1_total : forall k f b off, sig_ok k f = true -> exists v, dec1 f b off = Ok v.
+Proof.
+  intros k f b off Hs. unfold dec1, field_at. destruct (length b <=? off)%nat.
+  - exists VNone. cbn [bind]. exact (kind_none _ _ Hs).
+  - rewrite slice_sub.
+    destruct (kind_sem k f (sub b off (Nat.min (length b) (off + f_width f) - off)) Hs) as (kw & v & Hd & Ha & _).
+    + pose proof (sub_length_le b off (Nat.min (length b) (off + f_width f) - off)). lia.
+    + exists v. rewrite Hd. exact Ha.
+Qed.
+
+(* decoding never fails on a payload of any length whose class has a table that matches a layout *)
+Lemma dec_all_total : forall fs sfs off b, field_errors fs sfs off = [] -> exists vals, mseq (dec_all fs b off) = Ok vals.
+Proof.
+  induction fs as [|f fr IH]; intros [|s sr] off b He; try discriminate.
+  - exists []. reflexivity.
+  - apply field_errors_cons in He as (_ & _ & _ & _ & Hs & He).
+    destruct (IH _ _ b He) as (vals & Hm). destruct (dec1_total _ f b off Hs) as (v & Hv).
+    exists (v :: vals). cbn [dec_all]. apply mseq_cons_ok; assumption.
+Qed.
+
+Lemma dec_all_length : forall fs b off, length (dec_all fs b off) = length fs.
+Proof. induction fs as [|f fr IH]; intros; [reflexivity|]. cbn [dec_all List.length]. f_equal. apply IH. Qed.
+
+(* a field that lies completely inside the prefix decodes as in the whole payload *)
+Lemma dec1_prefix_inside : forall f b n off, (n <= length b)%nat -> (0 < f_width f)%nat -> (off + f_width f <= n)%nat ->
+  dec1 f (firstn n b) off = dec1 f b off.
+Proof.
+  intros f b n off Hn Hp Hi. rewrite !dec1_inside by (rewrite ?firstn_length; lia).
+  rewrite sub_firstn by lia. reflexivity.
+Qed.
+
+(* a field that starts at or beyond the end of the prefix is None *)
+Lemma dec1_prefix_beyond : forall k f b n off, sig_ok k f = true -> (n <= length b)%nat -> (n <= off)%nat ->
+  dec1 f (firstn n b) off = Ok VNone.
+Proof.
+  intros k f b n off Hs Hn Ho. unfold dec1, field_at. rewrite firstn_length.
+  replace (Nat.min n (length b) <=? off)%nat with true by (symmetry; apply Nat.leb_le; lia).
+  cbn [bind]. exact (kind_none _ _ Hs).
+Qed.
+
+(* C11: every prefix that still contains the type id and the variant discriminator decodes without an exception to
+   the same class; a field that lies completely inside the prefix has the value it has in the untruncated message;
+   a field that starts at or beyond the end of the prefix is None.  The positions are those of the layout. *)
+Theorem C11_truncated : forall v bits n,
+  length bits = nominal v -> spec_variant bits = Some v ->
+  (Nat.max 6 (disc_end v) <= n <= length bits)%nat ->
+  exists vals vals',
+    decode_bits bits = Ok (cls_of v, vals) /\
+    decode_bits (firstn n bits) = Ok (cls_of v, vals') /\
+    length vals = length (spec_layout v) /\ length vals' = length (spec_layout v) /\
+    forall i f, nth_error (spec_layout v) i = Some f ->
+      ((s_off f + s_width f <= n)%nat -> nth_error vals' i = nth_error vals i) /\
+      ((n <= s_off f)%nat -> nth_error vals' i = Some VNone).
+Proof.
+  intros v bits n Hlen Hv Hn.
+  destruct (layout_ok_inv _ _ (tables_match_spec v)) as (_ & _ & Herr).
+  destruct (nominal_covers_disc v) as [H6 Hd].
+  assert (Hsel : selects bits v) by (apply spec_variant_selects; [exact Hv|lia]).
+  assert (Hsel' : selects (firstn n bits) v) by (apply selects_prefix; [exact Hsel|lia]).
+  destruct (dec_all_total _ _ 0%nat bits Herr) as (vals & Hm).
+  destruct (dec_all_total _ _ 0%nat (firstn n bits) Herr) as (vals' & Hm').
+  exists vals, vals'. split; [|split; [|split; [|split]]].
+  - apply decode_bits_of_selects; try lia; [exact Hsel|]. apply from_bitarray_of_dec_all. exact Hm.
+  - apply decode_bits_of_selects; rewrite ?firstn_length; try lia; [exact Hsel'|].
+    apply from_bitarray_of_dec_all. exact Hm'.
+  - rewrite (mseq_length _ _ Hm), dec_all_length. exact (field_errors_length _ _ _ Herr).
+  - rewrite (mseq_length _ _ Hm'), dec_all_length. exact (field_errors_length _ _ _ Herr).
+  - intros i s Hi. destruct (field_errors_nth _ _ _ _ _ Herr Hi) as (f & Hf & Hw & Hp & Hs & Hnth).
+    destruct (mseq_nth _ _ _ _ Hm (Hnth bits)) as (a & Ha & Hva).
+    destruct (mseq_nth _ _ _ _ Hm' (Hnth (firstn n bits))) as (a' & Ha' & Hva').
+    split; intros Hc.
+    + rewrite dec1_prefix_inside in Ha' by lia. rewrite Hva, Hva'. congruence.
+    + rewrite (dec1_prefix_beyond _ _ _ _ _ Hs) in Ha' by lia. rewrite Hva'. congruence.
+Qed.
+
+(* ------------------------------------------------------------------------------------------------ *)
+(* real payloads for the non-vacuity examples of Props/C01.v and Props/C11.v                          *)
+
+Definition payload_codes (s : string) : list Z :=
+  map (fun c => Z.of_nat (Ascii.nat_of_ascii c)) (list_ascii_of_string s).
+
+(* !AIVDM,1,1,,B,15M67FC000G?ufbE`FepT@3n00Sa,0*5C  (a class A position report west of Greenwich) *)
+Definition sample_type1 : list Z := payload_codes "15M67FC000G?ufbE`FepT@3n00Sa".
+(* !AIVDM,2,1,1,A,55?MbV02;H;s<HtKR20EHE:0@T4@Dn2222222216L961O5Gf0NSQEp6ClRp8,0*1C
+   !AIVDM,2,2,1,A,88888888880,2*25                 (static and voyage data, three text fields) *)
+Definition sample_type5 : list Z :=
+  payload_codes "55?MbV02;H;s<HtKR20EHE:0@T4@Dn2222222216L961O5Gf0NSQEp6ClRp888888888880".
